@@ -56,6 +56,8 @@ pub fn op_price(case: &Value, dir: &Path) -> Value {
                 json!({
                     "ns": ns_of(&h.timestamp),
                     "uuid": h.uuid.map(|u| u.to_string()),
+                    "orig": vh::txn_postings(t).iter().map(|p| json!({
+                        "acct": p.account, "comm": p.commodity, "amount": dec_s(&p.amount)})).collect::<Vec<_>>(),
                     "posts": posts.iter().map(|p| json!({
                         "acct": p.account, "comm": p.commodity, "amount": dec_s(&p.amount),
                         "rate": p.rate.as_ref().map(dec_s)})).collect::<Vec<_>>(),
